@@ -8,7 +8,7 @@ CFG = cfg('C03', refine=['Refine_encrypt'], extract='Ex_C03', driver='c03',
                'ECDHCipherText.decrypt run on chosen octets (key unwrap stubbed) on random / damaged paddings and on every block length 0..39 padded to 40 octets (RFC 6637 section 8) vs model vs an independent reader; '
                'RFC 6637 parameter block and KDF for every ECDH key vs ECKDF.derive_key; S2K oracle vs String2Key.derive_key; ephemeral point of every ECDH PKESK in the '
                'fixed-width RFC 6637 encoding (8/60 draws for P-521, 2/12 for the other curves) + independent decryptor + own re-parse; caller-supplied session keys of wrong and right length on the key AND the passphrase path '
-               '(refusal class compared with the model); copies of encrypted messages. '
+               '(refusal class compared with the model); copies of encrypted messages; an RSA recipient whose modulus is no multiple of 8 bits long (2050 bits), messages encrypted by PGPy and by the model until ciphertexts with a leading zero octet have been met, decrypted by PGPy and the independent decryptor; RSA left padding on stub keys of 1023 / 2047 / 2050 / 3073 bits. '
                'message level: (a) independent decryptor: PGPy encrypts (9 ciphers x {rsa2048 subkey, rsa3072 primary, Curve25519 x2, P-256, P-384, P-521, secp256k1} x '
                'passphrases over 7 S2K hashes x 1..3 mixed recipients x bodies empty/text/unicode/binary/large/incompressible x 4 compressions x '
                'supplied/generated session key x signed x armored) -> the extracted model parses and decrypts through hashlib/cryptography -> plaintext packets '
@@ -28,9 +28,9 @@ CFG = cfg('C03', refine=['Refine_encrypt'], extract='Ex_C03', driver='c03',
 
 TEXT = ('Rocq theorems (Props/C03.v, closed under the global context, primitives as universally quantified functions): SEIPD layout equals the RFC 4880 5.13 '
         'transcription and decrypt(encrypt) returns the data for all data, keys and prefixes of block size; PKESK m = RFC 5.1 and round-trips for every key of '
-        'the cipher length (refuted otherwise); RSA ciphertext restoration incl. leading zero octets; ECDH composition (RFC 6637 parameter block and KDF equal the '
+        'the cipher length (refuted otherwise); RSA ciphertext restoration incl. leading zero octets, to the modulus length in octets (bits + 7) / 8 for every modulus length (pre-repair width refuted: C03_rsa_pad_old_refuted); ECDH composition (RFC 6637 parameter block and KDF equal the '
         'transcription, PKCS#5 pad/unpad incl. any other PKCS#5 amount such as the RFC 6637 padding to 40 octets (C03_unpad_pad40, C03_pkesk_padded_roundtrip; refused by the pre-repair unpadder: C03_unpad_old_pad40_refuted), AES key wrap); SKESK incl. direct mode and foreign algorithm octet, wrong-length session keys refused on both paths; message-level round trip for every recipient of a mixed '
-        'passphrase+key recipient list incl. subkey delegation; packet codecs (msg_parse after msg_emit is the identity on well-formed messages) and the octets-to-octets corollaries. PARTIAL: primitives assumed, wrong-key false accepts are a premise. Tie: source-text pins + extracted model '
+        'passphrase+key recipient list incl. subkey delegation; packet codecs (msg_parse after msg_emit is the identity on well-formed messages, incl. session key packets of algorithms without ciphertext class kept as opaque octets: C03_opaque_pkesk_roundtrip; the pre-repair reader refuted: C03_pkesk_parse_old_refuted) and the octets-to-octets corollaries. PARTIAL: primitives assumed, wrong-key false accepts are a premise. Tie: source-text pins + extracted model '
         'run as independent decryptor/encryptor against PGPy with hashlib/cryptography as primitive oracle.',
         'DESIGN.md 5 C03',
         'machine-checked proof in Rocq (Coq 8.16.1) + extracted-model correspondence (independent RFC 4880/6637 decryptor and encryptor)')
